@@ -4,6 +4,7 @@
 for d in /verif/seeded/C*; do
   p=$(python3 -c "import json,sys; m=json.load(open(sys.argv[1])); print(m.get('caught_by') or m['property'])" $d/meta.json)
   n=$(basename $d)
+  if python3 -c "import json,sys; sys.exit(0 if json.load(open('$d/meta.json')).get('obsolete') else 1)"; then echo "$n obsolete (skipped)"; continue; fi
   git -C /repo apply $d/patch.diff 2>/dev/null || { echo "$n: patch does not apply"; continue; }
   out=$(cd /verif && ./check $p --tier quick 2>&1); rc=$?
   nv=$(echo "$out" | grep -c "^VIOLATION"); nf=$(echo "$out" | grep -c "no-failing-input-found")
